@@ -16,6 +16,10 @@ import (
 	"github.com/hashicorp/go-hclog"
 )
 
+// shutdownWriteGrace is the time a conn gets to finish writing responses (like
+// the notice of disconnection) once the server is stopping.
+const shutdownWriteGrace = time.Second
+
 // Server is an ldap server that you can add a mux (multiplexer) router to and
 // then run it to accept and process requests.
 type Server struct {
@@ -214,6 +218,19 @@ func (s *Server) Run(addr string, opt ...Option) error {
 		s.connWg.Add(1)
 		s.connWgMu.Unlock()
 		verifPoint("run.added", connID, 0)
+		connDone := make(chan struct{})
+		go func() {
+			// when the server stops, unblock a conn which waits on a read (an
+			// idle client, a partial request, a pending TLS handshake) or on a
+			// write (a client which isn't reading its responses); otherwise
+			// Stop would wait for as long as the client pleases.
+			select {
+			case <-s.shutdownCtx.Done():
+				_ = c.SetReadDeadline(time.Now())
+				_ = c.SetWriteDeadline(time.Now().Add(shutdownWriteGrace))
+			case <-connDone:
+			}
+		}()
 		go func() {
 			verifPoint("conn.start", localConnID, 0)
 			defer func() {
@@ -224,6 +241,7 @@ func (s *Server) Run(addr string, opt ...Option) error {
 					s.logger.Debug("connWg done", "op", op, "conn", localConnID)
 					verifPoint("conn.wgdone", localConnID, 0)
 					s.connWg.Done()
+					close(connDone)
 					verifPoint("conn.gone", localConnID, 0)
 				}()
 				err := conn.close()
